@@ -1,8 +1,31 @@
 import XmppModel.Prelude.Hex
-/-! Driver module for C07: `handle args` answers one protocol line (fields after the
-property id); `none` means the line is not understood (`!bad-op`). -/
+import XmppModel.Model.ServeProto
+/-! Driver for C07: the same serve model as C08; the observation is what was written to the
+peer and how Serve ended (see harness/c07). -/
 namespace XmppModel.Driver.C07
+open XmppModel XmppModel.Serve
 
-def handle (_args : List String) : Option String := none
+def handle (args : List String) : Option String :=
+  match args with
+  | "serve" :: rest => do
+    let o ← handleServe rest
+    pure s!"{encWritten o.written} {encStop o.result}"
+  | "elem" :: mode :: ns :: lb :: jm :: toks :: [prog] => do
+    let ns ← decNs ns
+    let lb ← XmppModel.Xml.unhexF (if lb == "-" then "" else lb)
+    let jm ← decJidMap jm
+    let toks ← XmppModel.Xml.decToks toks
+    let p ← decProg prog
+    let cfg : Cfg := { ns := ns, localBare := lb, jidCanon := jidOracle jm }
+    let eff ←
+      if mode == "d" then some p
+      else if mode == "r" || mode == "u" then
+        (match firstElem cfg toks with
+         | some (n, as, body) => some (muxEffective (mode == "r") cfg n as body p)
+         | none => some p)
+      else none
+    let o := serve cfg toks [eff]
+    pure s!"{encWritten o.written} {encStop o.result}"
+  | _ => none
 
 end XmppModel.Driver.C07
